@@ -2,7 +2,7 @@
 
 Domain : methods over macro names A, B, C with definitions, redefinitions (before / between / after calls), nested
          calls, direct and mutual recursion (cycles of length 1..3, closing call first / later / nested in a block of
-         the body), calls inside blocks and watch bodies, plus up to 3 live edits per run (body change / added line /
+         the body), calls inside blocks and watch bodies, recursion through a Watch/Alarm body inside a macro body, plus up to 3 live edits per run (body change / added line /
          removed line / removed definition of a called or an uncalled macro, benign comment).
 Oracle : reference model `vp.harness.macro_h.simulate` written from the statement.
   trace      the sequence of observed effects (Mark values, Quick command executions, Block starts - every line has a
@@ -45,7 +45,9 @@ ASSUMPTIONS = [
     "a macro 'has started' = a call resolved to that definition lies, in execution order, before an effect already observed; "
     "'has not started' = every such call lies after the next expected effect; edits in between are not judged",
     "calls of a name that has no executed definition are outside the statement (prefix of the trace checked only)",
-    "macro definitions and watches only at top level; no Watch/Alarm inside macro bodies (statement silent on re-entrancy)",
+    "macro definitions only at top level; a Watch/Alarm inside a macro body is judged only as a link of a recursive call chain "
+    "(then some call of the chain must fail; only the outermost failure point has an exact expected trace); outside such a "
+    "chain judging stops at it (statement silent on re-arming / re-entrancy of interrupts defined in a macro)",
 ]
 TIERS = {"quick": {"examples": 4000, "budget_s": 100, "max_top": 9, "max_body": 4},
          "thorough": {"examples": 90000, "budget_s": 1200, "max_top": 14, "max_body": 6}}
@@ -133,7 +135,7 @@ def run_case(case):
                 if last.state != "Running" or last.status == "Error":
                     info["classes"].add("edit-skipped-not-running")
                     continue
-                if judge_trace and sim.outcome == "cycle" and sim.cycle_in_watch:
+                if judge_trace and (sim.outcome == "unjudged" or (sim.outcome == "cycle" and (sim.cycle_in_watch or sim.cycle_via_interrupt))):
                     # a recursive call chain in a Watch body: if it does not fail the main thread goes on alone and there is no
                     # single expected order of effects any more; such cases are judged on the failure itself only (no edits)
                     info["classes"].add("edit-skipped-cycle-in-watch")
@@ -277,6 +279,14 @@ def run_case(case):
         if obs != exp_all:
             what, i = divergence(exp_all)
             viol("trace:%s" % what, "effects before edit differ from the model at index %d: observed %r, expected %r; %s" % (i, obs, exp_all, where))
+    elif sim.outcome == "unjudged":
+        # a Watch/Alarm inside a macro body that is not part of a recursive chain: only the effects before it are compared
+        info["classes"].add("unjudged:interrupt-in-macro")
+        exp = sim.effects(sim.unjudged_at)
+        if obs[:len(exp)] != exp:
+            what, i = divergence(exp)
+            viol("trace:%s" % what, "effects before the Watch/Alarm inside a macro differ at index %d: observed %r, expected prefix %r; %s"
+                 % (i, obs, exp, where))
     elif sim.outcome == "complete":
         if obs != exp_all:
             what, i = divergence(exp_all)
@@ -295,6 +305,18 @@ def run_case(case):
             if obs[:len(longest)] != longest:
                 what, i = divergence(longest)
                 viol(("trace:%s" if what.startswith("missing-effect") else "trace-before-undefined-call:%s") % what, "observed %r, expected prefix %r; %s" % (obs, longest, where))
+        elif sim.cycle_via_interrupt:
+            # the chain passes a Watch/Alarm inside a macro body.  The first accepted failure (the outermost call that can reach
+            # itself) has a well-defined trace; a later one happens while interrupt body, macro body and main thread run side
+            # by side, so it is accepted by its line alone.
+            first = accepted[0]
+            ok_first = first[0] == obs and (first[1] == err_line or first[1] in failed_ids)
+            ok_later = any(a[1] == err_line or a[1] in failed_ids for a in accepted[1:])
+            if not (state == "Paused" and status == "Error" and (ok_first or ok_later)):
+                viol("cycle-not-failed:%s" % sim.cycle_cls,
+                     "a call that makes a macro call itself through a Watch/Alarm body inside a macro (cycle length %d, %s) did not "
+                     "fail: state %s/%s, error line %r (accepted failing calls %r), failed lines %r, effects %r; %s"
+                     % (sim.cycle_len, sim.cycle_cls, state, status, err_line, [a[1] for a in accepted], failed_ids, obs, where))
         elif sim.cycle_in_watch and not (state == "Paused" and status == "Error"
                                          and any(a[0] == obs and (a[1] == err_line or a[1] in failed_ids) for a in accepted)):
             # the recursive chain runs in a Watch body: when it does not fail, the main thread continues on its own (and may
